@@ -578,7 +578,7 @@ func replayCmd(cfg *propCfg, path string) int {
 	defer doCleanup()
 	rs := runJob(sc, cfg, job{prop: cfg.ID, seed: rp.Seed, run: rp.Run, count: 1, replay: rp, trace: true, opt: rp.Opt})
 	r := rs[0]
-	for _, l := range r.Trace {
+	for _, l := range resolveSites(sc, r.Trace) {
 		fmt.Println(l)
 	}
 	fmt.Printf("verdict=%s class=%s\n%s\nlog_hash=%s (recorded %s)\n", r.Verdict, r.Class, r.Detail, r.LogHash, rp.LogHash)
